@@ -176,10 +176,11 @@ namespace vsp
             return scalars({lo, -1e-9, 1.0, hi});
         if (level == 1)
             return scalars({lo, nextafter(lo, 0.0), -PI / 2, -1e-9, 0.0, 1e-9, 1.0, PI / 2, 3.0, hi});
+        // 1.138951553990722: from + (hi - from) * 1 rounds up to exactly pi (found by the densified thorough lattice; kept as a regression input)
         if (level == 2)
-            return scalars({lo, nextafter(lo, 0.0), -3.0, -PI / 2, -1.0, -1e-9, 0.0, 1e-9, 0.7071067811865476, 1.0, PI / 2, 2.0, 3.0, nextafter(hi, 0.0), hi});
+            return scalars({lo, nextafter(lo, 0.0), -3.0, -PI / 2, -1.138951553990722, -1.0, -1e-9, 0.0, 1e-9, 0.3, 0.7071067811865476, 1.0, 1.138951553990722, PI / 2, 2.0, 2.2, 3.0, nextafter(hi, 0.0), hi});
         return scalars({lo, nextafter(lo, 0.0), lo + 1e-9, -3.0, -2.5, nextafter(-PI / 2, -4.0), -PI / 2, nextafter(-PI / 2, 0.0), -1.0, -0.1, -1e-9, -5e-324, 0.0, 5e-324, 1e-9,
-                        0.1, 0.7071067811865476, 1.0, nextafter(PI / 2, 0.0), PI / 2, nextafter(PI / 2, 4.0), 2.0, 2.5, 3.0, hi - 1e-9, nextafter(hi, 0.0), hi});
+                        0.1, 0.3, 0.7071067811865476, 1.0, 1.138951553990722, nextafter(PI / 2, 0.0), PI / 2, nextafter(PI / 2, 4.0), 2.0, 2.2, 2.5, 3.0, hi - 1e-9, nextafter(hi, 0.0), hi});
     }
     inline Coords quatAxisAngle(double ax, double ay, double az, double angle)
     {
